@@ -155,10 +155,11 @@ int run_scan(const Args& a) {
         Universe& u = us[rd % us.size()];
         static const int wcs[] = {1, 2, 2, 4, 4, 8};
         int W = wcs[r.below(6)];
+        if (a.has("writers")) { W = static_cast<int>(a.num("writers", 4)); }
         int S = static_cast<int>(r.range(1, 3));
         // region of contention
         uint32_t n = static_cast<uint32_t>(u.keys.size());
-        uint32_t span = static_cast<uint32_t>(r.range(30, 240));
+        uint32_t span = static_cast<uint32_t>(r.range(a.num("span_min", 30), a.num("span_max", 240)));
         uint32_t rlo = static_cast<uint32_t>(r.below(n - std::min(span, n - 1)));
         uint32_t rhi = std::min(n - 1, rlo + span);
         // every fourth round works at the right edge of the tree: right-to-left scans start there, and the writers
